@@ -12,7 +12,7 @@ MCInputs == { [i \in 1..3 |-> IF i = p THEN c ELSE "short"] : p \in 1..3, c \in 
                   ELSE {})
 \* "expand": no input line is long, but definition expansion makes one inside the pipeline
 \* "fmtdirective": the long line is a directive (prefix line) that format parses and writes back
-Consumers == {"generate", "include", "exclude", "suffix", "format", "fmtdirective", "renumber", "copyright", "rules", "expand"}
+Consumers == {"generate", "stdin", "include", "exclude", "suffix", "format", "fmtdirective", "renumber", "copyright", "rules", "expand"}
 ExportCase == (Export /\ outcome # "running") =>
     \A cons \in Consumers, fnl \in BOOLEAN :
         PrintT(ToJson([consumer |-> cons, lines |-> input, fnl |-> fnl,
